@@ -2,6 +2,7 @@
 from lib import machine as mc
 from lib.mir import AnchorMissing, callee_is
 from . import tokrules as tr
+from . import nf_common
 
 MANIFEST = {
     "text": "Who-may-consume and must-count rules: raw consumption primitives of the input queue are called only from the reviewed wrapper roles, current_line is written only where a normalised line break is recognised (and by the SIMD scan), every fast-path set contains CR and LF so no run hides a line break, and no peek/discard_char path can drop a line break uncounted; the line is read at every sink call.",
@@ -155,7 +156,70 @@ def r09_5(ctx):
     ctx.floor("R09.5", "sink-reaching-paths", n, 20)
 
 
+def _tuple2(txt):
+    comps = mc._split_top(txt.strip()[1:-1], ",") if txt.strip().startswith("(") and txt.strip().endswith(")") else []
+    return [c.strip() for c in comps]
+
+
+def r09_6(ctx):
+    """SIMD scan of the data state: per loop iteration the newline tally covers exactly the bytes the index advances over"""
+    from lib import nf as nfmod
+    import re
+    items = {}
+    for it in ctx.ast.crates["html5ever"]:
+        if it["k"] == "Fn" and it["name"] in ("data_state_sse2_fast_path", "data_state_neon_fast_path") and it.get("body") is not None:
+            items[it["name"]] = it
+
+    def find(its):
+        for it in its:
+            if it.get("k") == "Fn" and it["name"] in ("data_state_sse2_fast_path", "data_state_neon_fast_path") and it.get("body") is not None:
+                items.setdefault(it["name"], dict(it, mod=it.get("mod") or "tokenizer"))
+            if it.get("k") in ("Impl", "Mod"):
+                find(it.get("items", []))
+    find(ctx.ast.raw("html5ever/src/tokenizer/mod.rs"))
+    n = 0
+    for name, it in sorted(items.items()):
+        r = nfmod.nf_function(it)
+        if r[0] != "paths":
+            ctx.ob("R09.6", "simd-newline-accounting/%s" % name, False, "the scan loop left the fragment the flattener models (%s): newline accounting cannot be decided" % (r[2] if len(r) > 2 else "?"))
+            continue
+        for c in mc.to_json({name: r[1]})[name]:
+            ret = str(c["ret"])
+            if ret == "!":
+                continue
+            t = _tuple2(ret)
+            if len(t) != 2:
+                ctx.ob("R09.6", "simd-newline-accounting/%s/result-shape" % name, False, "result is not (bytes scanned, newlines found): " + ret[:120])
+                continue
+            mi = re.fullmatch(r"loop\(\(φ\(0\) \+ (.*)\)\)", t[0])
+            mn = re.fullmatch(r"loop\(\(φ\(0\) \+ (.*)\)\)", t[1])
+            zero = t[1] == "loop(φ(0))"
+            if mi is None or (mn is None and not zero):
+                ctx.ob("R09.6", "simd-newline-accounting/%s/result-shape" % name, False, "index / tally are not 'previous + increment': " + ret[:160])
+                continue
+            di = mi.group(1)
+            dn = mn.group(1) if mn else "0"
+            n += 1
+            full = di == "16"
+            nl = ("10" in dn) or ("'\\n'" in dn) or ("'\n'" in dn)
+            if full:
+                prefix = "(1 <<" in dn or "[.." in dn
+                no_newline_known = zero and any((not v and "!= 0" in g) or (v and "== 0" in g and "newline" not in g and g.count("10") > 0) for g, v in c["guards"].items())
+                ok = (zero and (no_newline_known or any("10" in g or "'\\n'" in g for g in c["guards"]))) or (nl and not prefix)
+                what = "a whole 16-byte block: tally += newlines of the whole block"
+            else:
+                ok = nl and (("(1 << %s) - 1" % di) in dn or ("[..%s]" % di) in dn)
+                what = "stop inside the block: tally += newlines before the stop position only"
+            ctx.ob("R09.6", "simd-newline-accounting/%s/%s" % (name, "full-block" if full else "stop"), ok,
+                   what if ok else "index advances by %s but the newline tally by %s: line breaks %s are counted although they have not been consumed (they are counted again when consumed)" % (di[:80], dn[:160], "after the stop position" if not full else "?"),
+                   "html5ever tokenizer " + name)
+    ctx.floor("R09.6", "simd-scan-paths", n, 4)
+
+
 def run(ctx):
+    ctx.rule("R09.6", "SIMD data-state scan (SSE2 and NEON): the newline tally of an iteration covers exactly the bytes the index advances over; normal forms of the SIMD functions equal the reviewed reference")
+    ctx.guard("R09.6", "simd", lambda: r09_6(ctx))
+    ctx.guard("R09.6", "nf-simd", lambda: nf_common.nf_rule(ctx, "R09.6", "html_tokenizer_simd", floor=3))
     ctx.rule("R09.5", "TreeBuilder::process_token forwards the token's line (set_current_line) before any call that can reach the sink, on every path")
     ctx.guard("R09.5", "forward", lambda: r09_5(ctx))
     ctx.rule("R09.1", "raw consumption primitives of the input are called only from the reviewed wrapper roles")
@@ -179,5 +243,7 @@ def run(ctx):
 
     ctx.guard("R09.3", "raw-discards", raw)
     ctx.guard("R09.3", "ignore_lf", lambda: tr.ignore_lf_rule(ctx, "R09.3", "html"))
+    # characters the char-ref code may push back must not have been counted: they are read with peek + discard_char
+    ctx.guard("R09.3", "pushback", lambda: tr.pushback_taint(ctx, "R09.3", "html"))
     ctx.guard("R09.4", "sink", lambda: r09_4(ctx))
     ctx.guard("R09.3", "raw-path-gate", lambda: ctx.floor("R09.3", "raw-path-sites", tr.raw_path_gate(ctx, "R09.3", "html"), 1))
